@@ -936,7 +936,8 @@ var summarySort = map[string]Summary{
 
 var summaryStrConv = map[string]Summary{
 	"strconv.init": NoDataFlowPropagation,
-	"strconv.Atoi": {[][]int{{0}}, [][]int{{0}}},
+	// func Atoi(s string) (int, error): the error value quotes the input
+	"strconv.Atoi": {[][]int{{0}}, [][]int{{0, 1}}},
 	// func AppendFloat(dst []byte, f float64, fmt byte, prec, bitSize int) []byte
 	"strconv.AppendFloat": {
 		[][]int{{0}, {0, 1}, {0, 2}, {0, 3}},
